@@ -7,6 +7,7 @@ import SltVerif.Unparse
 import SltVerif.Include
 import SltVerif.Update
 import SltVerif.Subst
+import SltVerif.Cli
 import Driver.Codec
 import Driver.Db
 namespace Drv
@@ -335,6 +336,33 @@ def opUpdate : Rd String := do
   let b := run true
   pure (if a == b then a else "TABLE-MISS")
 
+/-! ### CLI decision logic -/
+
+def optNat : Rd (Option Nat) := do
+  let t ← tok
+  pure t.toNat?
+
+def opPart : Rd String := do
+  let count ← nat
+  let ident ← nat
+  let globs ← listOf (listOf str)
+  match partitionConfig (some count) (some ident) with
+  | .error _ => pure "error"
+  | .ok cfg =>
+    let sel := globs.flatMap (selectFiles pathHash cfg)
+    pure (sel.foldl (fun acc p => acc ++ " " ++ hx p) s!"sel {sel.length}")
+
+def opSip : Rd String := do
+  let p ← str
+  pure (toString (pathHash p))
+
+def opPartCfg : Rd String := do
+  let count ← optNat
+  let ident ← optNat
+  match partitionConfig count ident with
+  | .error _ => pure "error"
+  | .ok _ => pure "ok"
+
 def dispatchOp (line : String) : String :=
   match line.splitOn " " with
   | [] => "bad-op"
@@ -346,6 +374,9 @@ def dispatchOp (line : String) : String :=
       | "fmt" => opFmt.run rest
       | "include" => opInclude.run rest
       | "update" => opUpdate.run rest
+      | "part" => opPart.run rest
+      | "partcfg" => opPartCfg.run rest
+      | "sip" => opSip.run rest
       | _ => .error s!"unknown op {op}"
     match r with
     | .ok (out, []) => out
